@@ -577,8 +577,7 @@ func c13Bases() map[string]*world.World {
 	mk("two-nodes-fractions", n11,
 		world.WL{Queue: "qb", Pods: []world.PodSpec{{Shape: shF5, State: world.StRunning, Node: "n1", Groups: []string{"A"}}}},
 		world.WL{Queue: "qb", Pods: []world.PodSpec{{Shape: shF3, State: world.StRunning, Node: "n2", Groups: []string{"B"}}}},
-		world.WL{Queue: "qa", Pods: pods(1, shF5, "", "")},
-		world.WL{Queue: "qa", Pods: pods(1, shF7, "", "")})
+		world.WL{Queue: "qa", Pods: pods(1, shF5, "", "")})
 	mk("two-nodes-gang", n22,
 		world.WL{Queue: "qb", MinMember: 2, Pods: []world.PodSpec{{Shape: shG1, State: world.StRunning, Node: "n1"}, {Shape: shG1, State: world.StRunning, Node: "n2"}}},
 		world.WL{Queue: "qa", Pods: pods(1, shG2, "", "")},
